@@ -28,7 +28,8 @@ ASSUMPTIONS = ["probabilities compared to 1e-12 relative"]
 
 CFGS = [dict(fam=f, ne=ne, avoid=True, width=None) for f in ms.FAMS for ne in (False, True)] + \
        [dict(fam=f, ne=ne, avoid=True, width=1, min_prob_norm=0.3) for f in ms.FAMS for ne in (False, True)] + \
-       [dict(fam=f, ne=True, avoid=True, width=2, max_dist=1.5) for f in ms.FAMS]
+       [dict(fam=f, ne=True, avoid=True, width=2, max_dist=1.5) for f in ms.FAMS] + \
+       [dict(fam=f, ne=True, avoid=True, width=w, maxnb=1) for f, w in (("S", None), ("D", 1))]
 
 
 def space(tier):
